@@ -19,7 +19,10 @@ def c20(seed):
     k=(noz*layer)/(math.pi*(fil/2)**2)
     calls=[]
     def probe_hook(o,t,p,s): calls.append((tuple(o),tuple(t))); return p
-    g.add_hook(probe_hook); g.add_hook(extrusion_hook(layer,noz,fil))
+    def limit_feed(o,t,p,s):
+        if p.get('F') is not None: p.update(F=min(p.get('F'),300))
+        return p
+    g.add_hook(probe_hook); g.add_hook(extrusion_hook(layer,noz,fil)); g.add_hook(limit_feed)
     g.set_axis(x=0,y=0,z=0,E=0)
     pos=[0.0,0.0,0.0]; rel=False; erel=False; epos=0.0; switched_without_reset=False
     n0=len(r.raw)
@@ -33,6 +36,7 @@ def c20(seed):
         elif op=='ereset': g.set_axis(E=0); epos=0.0; switched_without_reset=False
         elif op in('move','rapid'):
             c={a: rnd.randint(-20,20)/2 for a in 'xyz' if rnd.random()<0.6}
+            if rnd.random()<0.5: c['F']=rnd.choice([100,250,500,900])
             getattr(g,op)(**c)
         else:
             g.trace.polyline([tuple(rnd.randint(-20,20)/2 for _ in range(3)) for _ in range(2)])
@@ -42,6 +46,8 @@ def c20(seed):
                 old=list(pos)
                 for j,a in enumerate('XYZ'):
                     if a in w: pos[j]=pos[j]+float(w[a]) if rel else float(w[a])
+                if 'F' in w and abs(float(w['F'])-g.state.feed_rate)>1e-9: issues.append(('C20 state.feed_rate != emitted F (hook result not tracked)',seed,i,w['F'],g.state.feed_rate))
+                if 'F' in w and g.get_parameter('F') is not None and abs(float(w['F'])-g.get_parameter('F'))>1e-9: issues.append(('C20 remembered F != emitted F',seed,i))
                 if code=='G1':
                     # hook call expected
                     if ncalls>=len(calls): issues.append(('C20 missing hook call',seed,i)); continue
